@@ -50,6 +50,19 @@ Proof.
   field. interval with (i_prec 64).
 Qed.
 
+(* the values at the closed ends of the domains (the generated points use
+   the right-hand sides directly: asin_atan needs -1 < x < 1) *)
+Lemma edge_values :
+  asin 1 = PI / 2 /\ asin (-1) = - (PI / 2) /\ acos 1 = 0 /\ acos (-1) = PI /\ acosh 1 = 0.
+Proof.
+  repeat split.
+  - apply asin_1.
+  - replace (asin (-1)) with (asin (Ropp 1)) by (f_equal; lra). rewrite asin_opp, asin_1. reflexivity.
+  - apply acos_1.
+  - replace (acos (-1)) with (acos (Ropp 1)) by (f_equal; lra). rewrite acos_opp, acos_1. ring.
+  - unfold acosh. replace (1 * 1 - 1) with 0 by ring. rewrite sqrt_0, Rplus_0_r. apply ln_1.
+Qed.
+
 (* tanh of a large argument: exp x is out of reach for interval evaluation
    (and irrelevant): tanh x is within 1e-17 of 1 from x = 20 on *)
 Lemma tanh_big_pos : forall x, 20 <= x -> 0 <= 1 - tanh x <= 1 / 10 ^ 17.
